@@ -13,7 +13,7 @@ from vf.progs import tla as to_tla
 
 K = 1024
 SIZES = [0, 1, 1023, 1024, 1025, 2048, 2049, 3072]
-PKTS = [('INFO', 1), ('INFO', 2), ('OKAY', 1), ('FAIL', 1), ('DATA', 1), ('DATA', 0), ('JUNK', 1)]
+PKTS = [('INFO', 1), ('INFO', 2), ('OKAY', 1), ('OKAY', 2), ('FAIL', 1), ('DATA', 1), ('DATA', 0), ('JUNK', 1)]
 CMDS = [('getvar', 'version'), ('erase', 'boot'), ('flash', 'system'), ('oem', 'poweroff'),
         ('continue', ''), ('reboot', ''), ('reboot', 'recovery'), ('reboot-bootloader', '')]
 
@@ -50,14 +50,17 @@ CHECK_DEADLOCK FALSE
 '''
 
 
+def text(kind, i):
+  """payload text of packet number i of a kind; number 2 is the blank packet (header only)"""
+  if i == 2:
+    return ''
+  return {'INFO': 'info-%d', 'OKAY': 'payload-%d', 'FAIL': 'reason-%d'}[kind] % i
+
+
 def concrete_packet(p, size):
   kind, i = p
-  if kind == 'INFO':
-    return 'INFOinfo-%d' % i
-  if kind == 'OKAY':
-    return 'OKAYpayload-%d' % i
-  if kind == 'FAIL':
-    return 'FAILreason-%d' % i
+  if kind in ('INFO', 'OKAY', 'FAIL'):
+    return kind + text(kind, i)
   if kind == 'DATA':
     return 'DATA%08x' % (size if i == 1 else size + 1)
   return 'WXYZjunk'
@@ -125,7 +128,7 @@ def replay_one(h):
   # result
   exp = h['result']
   if exp[0] == 'ok':
-    want = ('ok', 'payload-%d' % exp[1])
+    want = ('ok', text('OKAY', exp[1]))
     if got[:2] != want:
       bad.append('command returned %r, model says %r' % (got[:2], want))
   else:
@@ -152,8 +155,7 @@ def replay_one(h):
     else:
       bad.append('image chunks differ from the model (sizes %s, model %s)'
                  % ([len(x) for x in usb.tx[1:]], [len(x) for x in exp_sent[1:]]))
-  exp_infos = [(p[0], {'INFO': 'info-%d', 'OKAY': 'payload-%d', 'FAIL': 'reason-%d'}[p[0]] % p[1])
-               for p in h['infos']]
+  exp_infos = [(p[0], text(p[0], p[1])) for p in h['infos']]
   if infos != exp_infos:
     bad.append('info callback saw %s, model says %s' % (infos, exp_infos))
   if prog != [tuple(p) for p in h['prog']]:
